@@ -12,8 +12,8 @@ from engine import hist, irlib
 LEVEL = "other"
 TECHNIQUE = "symbolic execution (zsym, z3) of bounded edit histories over the real IR classes: operand selectors and payload ints symbolic, invariant I(U) checked on every feasible path, each path's witness re-executed natively"
 
-RANGES = dict(gi=(0, 1), a=(0, 7), b=(-2, 4), c=(-1, 3))
-RANGES_K2 = dict(gi=(0, 1), a=(0, 5), b=(-1, 2), c=(-1, 1))  # two-step histories: smaller payload ranges
+RANGES = dict(gi=(0, 1), a=(0, 8), b=(-2, 4), c=(-1, 3), d=(0, 12))
+RANGES_K2 = dict(gi=(0, 1), a=(0, 5), b=(-1, 2), c=(-1, 1), d=(0, 12))  # two-step histories: smaller payload ranges
 
 
 def body_for(seed, ops_fixed, k):
@@ -28,7 +28,7 @@ def body_for(seed, ops_fixed, k):
 
             op = operator.index(op)
             names.append(irlib.OPS[op])
-            raised.append(irlib.apply(st, op, P[f"gi{i}"], P[f"a{i}"], P[f"b{i}"], P[f"c{i}"]))
+            raised.append(irlib.apply(st, op, P[f"gi{i}"], P[f"a{i}"], P[f"b{i}"], P[f"c{i}"], P[f"d{i}"]))
             if i < k - 1 and first_bad is None:
                 mid = irlib.invariant(st)
                 if mid:
